@@ -370,7 +370,7 @@ func runC02(w *World, pi interface{}) {
 		}
 		defer l.Close()
 		w.Net.OnLink = func(lk *simnet.Link) { p.Faults.Apply(w, lk.AB) }
-		d := websocket.Dialer{NetDialContext: simnet.DialContext, Subprotocols: []string{"lime"}}
+		d := websocket.Dialer{NetDialContext: simnet.DialContext, Subprotocols: []string{"lime"}, EnableCompression: swarm.WSCompress}
 		dctx, dcancel := context.WithTimeout(context.Background(), time.Minute)
 		ws, _, err := d.DialContext(dctx, "ws://127.0.0.1:7701", nil)
 		if err != nil {
